@@ -51,6 +51,9 @@ func itoIndexArray[V indexValueT](p *Process, params []string, v []V, marshaller
 		if i < 0 {
 			i += len(v)
 		}
+		if i < 0 {
+			return fmt.Errorf("key '%s' is further from the end than the number of items in array", key)
+		}
 		if i >= len(v) {
 			return fmt.Errorf("key '%s' greater than number of items in array", key)
 		}
